@@ -6,6 +6,8 @@ pub mod pool;
 pub mod verif;
 
 mod groups;
+#[cfg(feature = "verif")]
+pub use groups::verif as groups_verif;
 
 #[cfg(test)]
 mod test_allocator;
